@@ -4,6 +4,9 @@ package main
 import (
 	"flag"
 	"fmt"
+	"go/token"
+	"go/types"
+	"golang.org/x/tools/go/ssa"
 	"os"
 	"sort"
 	"strconv"
@@ -88,6 +91,37 @@ func doDump(p *core.Program, what string) {
 		fmt.Println(len(ops), "store ops")
 		for _, e := range p.StoreEscapes() {
 			fmt.Println("ESCAPE", e)
+		}
+	case "arith":
+		hs, _ := p.Handlers()
+		seen := map[string]bool{}
+		for _, h := range hs {
+			for _, fn := range p.Summary(h.Fn).Funcs {
+				for _, b := range fn.Blocks {
+					for _, in := range b.Instrs {
+						bo, ok := in.(*ssa.BinOp)
+						if !ok || (bo.Op != token.MUL && bo.Op != token.ADD) {
+							continue
+						}
+						bt, ok := bo.Type().Underlying().(*types.Basic)
+						if !ok || bt.Info()&types.IsInteger == 0 {
+							continue
+						}
+						px := p.ResolveToEntry(p.ProvAt(bo.X, "", bo), h.Fn)
+						py := p.ResolveToEntry(p.ProvAt(bo.Y, "", bo), h.Fn)
+						fx, fy := p.MsgFields(px, h), p.MsgFields(py, h)
+						if len(fx)+len(fy) == 0 {
+							continue
+						}
+						k := p.InstrPos(bo)
+						if seen[k+h.Key()] {
+							continue
+						}
+						seen[k+h.Key()] = true
+						fmt.Printf("%s %s %s %s  X=%v Y=%v\n", h.Key(), core.FnName(fn), k, bo.Op, px.Strings(), py.Strings())
+					}
+				}
+			}
 		}
 	case "bank":
 		n := 0
